@@ -529,7 +529,10 @@ CanonicalUrl(s, usesNetloc) ==
         ELSE /\ ~sa.oddBrackets /\ (sa.bracketed \/ (~Has(a.authority, LBR) /\ ~Has(a.authority, RBR)))
              /\ (sa.hasUserinfo => (sa.user # <<>> \/ sa.hasPassword))
              /\ CanonicalText("user", sa.user) /\ CanonicalText("password", sa.password)
-             /\ (IF sa.bracketed THEN CanonBracketed(sa.host) ELSE CanonHost(sa.host))
+             \* an EMPTY host (reg-name may be empty) next to userinfo or a port, for schemes that do not insist on a host
+             /\ (IF sa.bracketed THEN CanonBracketed(sa.host)
+                 ELSE IF sa.host = <<>> THEN ~SchemeNeedsHost(a.scheme) /\ (sa.hasUserinfo \/ (sa.hasPort /\ sa.port # <<>>))
+                 ELSE CanonHost(sa.host))
              /\ (sa.hasPort => CanonPortText(a.scheme, sa.port))
      ELSE ~(a.scheme # <<>> /\ a.scheme \in usesNetloc) \/ (a.path # <<>> /\ a.path[1] # SLASH)
   /\ CanonicalText("path", a.path)
